@@ -3,6 +3,7 @@ F2 obligations over the real grammar and visitor (arity of every tuple unpacking
 literal conversions), pass-level exception safety, and the command-line procedure names."""
 import ast
 import itertools
+import json
 import os
 import re
 
@@ -387,6 +388,11 @@ def config_files():
                 "valid": "string_configs:\n  strname_to_size:\n    A$: 40\n", "bad name": "string_configs:\n  strname_to_size:\n    AAA$: 40\n",
                 "bad size": "string_configs:\n  strname_to_size:\n    A$: 0\n", "wrong type": "string_configs: 7\n", "unknown key": "other: 1\n",
                 "not yaml": "{[\n", "nested list": "string_configs:\n  strname_to_size: [1, 2]\n"}
+        # every shape of key: the empty name, a lone suffix, digits first, lower case, blanks, very long
+        for k in ("$", "$()", "()", "", " ", "1$", "a$", "A", "A$$", "A$(", "A$)", "A $", "AB C$", "A$()()", "_$", "A1B$", "A" * 300 + "$", "A$(1)", "'$'"):
+            docs["key %r" % k] = "string_configs:\n  strname_to_size:\n    %s: 40\n" % json.dumps(k)
+        for v in ("-1", "0", "1", "255", "256", "32767", "1e3", "4.5", "'40'", "null", "true", "[1]", "{}"):
+            docs["size %s" % v] = "string_configs:\n  strname_to_size:\n    A$: %s\n" % v
         d = tempfile.mkdtemp(dir=os.environ.get("XDG_RUNTIME_DIR") or "/dev/shm")
         try:
             src = os.path.join(d, "p.bas")
